@@ -191,7 +191,8 @@ def _parse_report(blob: bytes, timed_out: bool, wstatus: int) -> dict:
             events.append(rec)
     res = {"events": events}  # type: typing.Dict[str, typing.Any]
     if timed_out:
-        res["status"] = "timeout"
+        # wall-clock watchdog: a machine too loaded to finish an invocation is not evidence about nunavut
+        raise HarnessError("invocation killed by the wall-clock watchdog")
     elif final is not None:
         res.update(final)
     elif os.WIFEXITED(wstatus) and os.WEXITSTATUS(wstatus) == CRASH_STATUS:
